@@ -1,6 +1,9 @@
 package main
 
 import (
+	"fmt"
+	"os"
+	"sort"
 	"strings"
 
 	"verif/internal/kinds"
@@ -157,6 +160,25 @@ func init() {
 			c.flows_("linear", "order", "pos-span", "leaf-value", "nil-in-list", "error-yields-nil", "no-carrier-escape")
 			c.flowRule("kind-of-operator", flowRules["kind-of-operator"])
 			c.siblings()
+			if os.Getenv("VERIF_DUMP") != "" {
+				for _, label := range []string{"php5", "php7"} {
+					f, _ := c.flow(c.Repo, label)
+					sk := f.SlotKinds()
+					var ks []string
+					for k := range sk {
+						ks = append(ks, k)
+					}
+					sort.Strings(ks)
+					for _, k := range ks {
+						var vs []string
+						for v := range sk[k] {
+							vs = append(vs, strings.TrimPrefix(v, "ast."))
+						}
+						sort.Strings(vs)
+						fmt.Printf("  slot[%s] %s: %s\n", label, k, strings.Join(vs, " "))
+					}
+				}
+			}
 		},
 	}
 	delete(notApplicable, "C02")
